@@ -249,3 +249,5 @@ def run(F, rep, tier):
     c14_generator_source_per_environment(F, rep)
     from rules.loopshape import c14_membership_complement
     c14_membership_complement(F, rep)
+    from rules.loopshape import trial_env_fresh
+    trial_env_fresh(F, rep, "C14-R7", {"comprehension_environments"}, 1)
